@@ -91,8 +91,9 @@ class CellVariable:
         elif cell_value.ndim == len(mesh_struct.dims)\
                 and np.all(np.array(cell_value.shape)==mesh_struct.dims+2):
             # Values for ghost cells already included,
-            # simply fill
-            self._value = TrackedArray(cell_value)
+            # simply fill (as floats: an integer-typed array would silently
+            # truncate every value assigned or computed later)
+            self._value = TrackedArray(np.array(cell_value, dtype=float))
         else:
             raise ValueError(f"The cell size {cell_value.shape} is not valid "\
                              f"for a mesh of size {mesh_struct.dims}.")
